@@ -11,30 +11,27 @@ import (
 // inductive step on the real NewWalletTaskChan / IsBusy / PushImport / PushRemove from an arbitrary state that
 // satisfies the queue invariant
 //
-//	waiting <= MaxWaitingTaskNum      while the worker runs a task it took from the queue,
-//	waiting <= MaxWaitingTaskNum + 1  while the worker is idle (it may just have put its unfinished task back):
+//	waiting + (1 if the worker runs a task it took from the queue) <= capacity of the queue
 //
-// (a) the API admits a task only when !IsBusy() (CreateWallet/ImportWallet/RemoveWallet test IsWorkerBusy first) -
-// an admitted task is queued; (b) the idle worker takes a task; (c) the worker finishes its task; (d) the worker puts
-// its unfinished task back (the re-queue after an import round that is not final, a failed round, or a removal step
-// that is not final) - it is queued, never dropped. Every step re-establishes the invariant.
+// which holds initially (NewNtfnsHandler sizes the queue by the number of wallets W, and the worker's start-up pass
+// queues at most one task per wallet: asserted here as W <= capacity): (a) the API admits a task only when !IsBusy()
+// (CreateWallet/ImportWallet/RemoveWallet test IsWorkerBusy first) - an admitted task is queued; (b) the idle worker
+// takes a task; (c) the worker finishes its task; (d) the worker puts its unfinished task back (the re-queue after an
+// import round that is not final, a failed round, or a removal step that is not final) - it is queued, never
+// dropped. Every step re-establishes the invariant.
 func VerifC20RequeueNeverDropped() {
-	size := rt.NondetLen(0, 6) // NewNtfnsHandler passes the number of wallets
-	c := NewWalletTaskChan(size)
-	waiting := rt.NondetLen(0, MaxWaitingTaskNum+1)
+	wallets := rt.NondetLen(0, 6) // NewNtfnsHandler passes the number of wallets
+	c := NewWalletTaskChan(wallets)
+	rt.Assert(wallets <= cap(c.C), "start-up-pass-fits-one-task-per-wallet")
+	waiting := rt.NondetLen(0, 7)
 	running := rt.NondetBool()
 	inv := func(w int, r bool) bool {
 		if r {
-			return w <= MaxWaitingTaskNum
+			return w+1 <= cap(c.C)
 		}
-		return w <= MaxWaitingTaskNum+1
+		return w <= cap(c.C)
 	}
 	rt.Assume(inv(waiting, running))
-	// the state exists only if the queue can hold it (with the documented capacity it always can)
-	rt.Assert(waiting <= cap(c.C), "queue-holds-every-state-the-protocol-reaches")
-	if waiting > cap(c.C) {
-		return
-	}
 	for i := 0; i < waiting; i++ {
 		c.C <- WalletTask{taskType: WalletTaskImport, walletId: "w"}
 	}
@@ -48,8 +45,8 @@ func VerifC20RequeueNeverDropped() {
 			}
 			rt.Assert(len(c.C) == waiting+1, "admitted-task-is-queued")
 			waiting++
+			rt.Reach("api")
 		}
-		rt.Reach("api")
 	case 1: // the idle worker takes a task
 		if !running && waiting > 0 {
 			<-c.C
